@@ -357,6 +357,16 @@ def oracle(p):
             d = float((w - vv).abs().max())
             if not d <= 1e-12:
                 key = "C13:logv:align_corners-not-forwarded" if es > 0 else "C13:logv:exp_steps=0:differs-from-iteration"
+                # one iteration too few / too many?
+                for cnt in (iters - 1, iters + 1):
+                    alt = flow
+                    for _ in range(cnt):
+                        uu = FL.expv(-alt, steps=es, align_corners=ac)
+                        uu = FL.compose_flows(flow, uu, align_corners=ac)
+                        alt = FL.compose_svfs(uu, alt, bch_terms=bt, sigma=None, spacing=sp_eff)
+                    if float((w - alt).abs().max()) <= 1e-12:
+                        key = "C13:logv:iteration-count"
+                        d = float((w - vv).abs().max())
                 if sp is None and bt >= 1:
                     # with the default spacing: is it the bracket scaling?  compare with the iteration using 2/(n-1) instead
                     alt = flow
@@ -367,10 +377,30 @@ def oracle(p):
                     if float((w - alt).abs().max()) <= 1e-12:
                         key = f"C13:logv:bracket-spacing:align_corners={ac}"
                 fail(key,
+                     ("logv runs a different number of iterations than num_iters: " if key == "C13:logv:iteration-count" else "") +
                      f"logv(flow, num_iters={iters}, bch_terms={bt}, spacing={sp}, exp_steps={es}, align_corners={ac}) differs by {d:.3g} (field "
                      f"amplitude {float(v.abs().max()):.2g}, {nn}^{D} grid) from the iteration v <- BCH(flow o exp(-v), v) assembled from expv(-v), "
                      f"compose_flows(., ., align_corners={ac}) and compose_svfs with the same options",
                      {"D": D, "n": nn, "ac": ac, "num_iters": iters, "exp_steps": es, "spacing": sp, "bch_terms": bt})
+    # ---- the exponential logv relies on is the compose_flows iteration: expv(v, steps=k) = k self-compositions of v / 2^k ----
+    for it in range(max(4, n // 15)):
+        D = rng.choice([2, 3])
+        shape = tuple(rng.randint(3, 6) for _ in range(D))
+        k = rng.choice([1, 2, 4])
+        for ac in (True, False):
+            gen = torch.Generator().manual_seed(rng.randrange(10 ** 6))
+            v = (torch.rand((1, D) + shape, dtype=torch.float64, generator=gen) - 0.5) * 0.8
+            r = FL.expv(v, steps=k, align_corners=ac)
+            d_ = v / 2 ** k
+            for _ in range(k):
+                d_ = FL.compose_flows(d_, d_, align_corners=ac)
+            count("expv-is-compose-iteration")
+            dd = float((r - d_).abs().max())
+            if not dd <= 1e-12:
+                fail(f"C13:expv:not-compose-iteration:align_corners={ac}",
+                     f"expv(v, steps={k}, align_corners={ac}) differs by {dd:.3g} from {k} self-compositions compose_flows(d, d, align_corners={ac}) "
+                     f"of v / 2^{k} (shape {shape}, amplitude 0.4)", {"D": D, "shape": list(shape), "steps": k, "ac": ac})
+
     # ---- regression (repaired in /repo 15e1ee8): logv(align_corners=False) must scale its brackets with spacing 2/n ----
     for D in (2, 3):
         nn = 5
